@@ -266,11 +266,17 @@ def oracle(case):
     g = np.array(jax.grad(fflat)(x0a))
     Hg = np.array(jax.jvp(jax.grad(fflat), (x0a,), (jnp.array(g),))[1])
     gg, curv = float(g @ g), float(g @ Hg)
+    fake = case.get("cgfake")
     if gg > 1e-12 and curv < -1e-9 * gg and (case.get("maxiter") is None or case["maxiter"] >= 1) \
-            and not case.get("cgfake"):
+            and not (fake and int(fake["info"]) < 0):
         t = gg / abs(curv)
-        sched = [t / 2 ** k for k in range(6)] + [t, t / 2, t / 4]
-        lowers = [s for s in sched if _f_at(case, list(np.array(x0) - s * g)) < f0 - 1e-9 * scale]
+        if fake:   # the CG oracle returns scale*g: trials 0-5 at pos - scale/2^k g; reset trials along -g
+            sc = float(Fraction(fake["scale"]))
+            sched = [sc / 2 ** k for k in range(6)] + [t, t / 2, t / 4]
+        else:      # the library CG returns t*g at a negative-curvature start
+            sched = [t / 2 ** k for k in range(6)] + [t, t / 2, t / 4]
+        along = [s for s in sched if s > 0]
+        lowers = [s for s in along if _f_at(case, list(np.array(x0) - s * g)) < f0 - 1e-9 * scale]
         if lowers:
             kw1 = dict(_kwargs(case, pinned), maxiter=1, miniter=None)
             for variant in ("eager", "static"):
@@ -281,11 +287,15 @@ def oracle(case):
                 step = np.array(o["x"]) - np.array(x0)
                 s = -(step @ g) / gg
                 par = np.linalg.norm(step + s * g) <= 1e-7 * (np.linalg.norm(step) + 1e-300)
-                if not (o["fun"] < f0 - 1e-10 * scale and s > 0 and par and o["status"] != -1):
+                ok = o["fun"] < f0 - 1e-10 * scale and o["status"] != -1
+                if len(along) == len(sched):
+                    ok = ok and s > 0 and par
+                if not ok:
+                    how = "status%d" % o["status"] if o["status"] in (0, -1) else "other"
                     return (f"{variant} Newton-CG at a negative-curvature start (g.Hg={curv:.4g}) does not step along -g "
                             f"to lower energy although trial length {lowers[0]:.4g} does: status={o['status']}, "
                             f"fun-f0={o['fun'] - f0:.4g}, step coefficient={s:.4g}",
-                            _sig("negcurv_no_progress", variant=variant, how="status%d" % o["status"] if o["status"] in (0, -1) else "other"))
+                            _sig("negcurv_no_progress", variant=variant, how=how, cg="fake" if fake else "library"))
     # eager and compiled agree (where the eager outcome is stable under threshold perturbation)
     re_, rs_ = res["eager"], res["static"]
     stable = True
@@ -471,11 +481,11 @@ def _check(ctx, cases):
 
 def run(ctx):
     cases = _load_corpus()
-    for _ in range(ctx.n(14, 160)):
+    for _ in range(ctx.n(14, 50)):
         cases.append(_gen_case(ctx.rng, ctx.quick, modelled=True))
-    for _ in range(ctx.n(5, 80)):
+    for _ in range(ctx.n(5, 30)):
         cases.append(_gen_case(ctx.rng, ctx.quick, modelled=False))
-    for _ in range(ctx.n(2, 60)):
+    for _ in range(ctx.n(2, 20)):
         cases.append(_gen_trig(ctx.rng))
     B = 40
     for a in range(0, len(cases), B):
